@@ -1,9 +1,10 @@
 pub mod chunker;
+pub mod session;
 
 use crate::core::Engine;
 
 pub fn all() -> Vec<&'static dyn Engine> {
-    vec![&chunker::ChunkerEngine]
+    vec![&chunker::ChunkerEngine, &session::SessionEngine]
 }
 
 pub fn for_property(id: &str) -> Option<&'static dyn Engine> {
